@@ -20,6 +20,7 @@ META = {
                     "frames closer than the library's own 1e-8 equality tolerance are treated as equal, as it does",
                     "frame/position metadata objects are not compared beyond the recorded frame's pose"],
 }
+REQUIRED_REACH = ['general/faser_screw.py:Screw.changeFrame', 'general/faser_wrench.py:Wrench.changeFrame', 'general/faser_wrench.py:Wrench.__init__', 'general/faser_screw.py:Screw.__add__', 'general/faser_screw.py:Screw.__sub__']
 REQUIRED_CLAUSES = ["screw.aba", "screw.abc", "screw.frame", "wrench.aba", "wrench.abc", "wrench.frame", "pairing", "moment.pxf",
                     "moment.zero_at_point", "mixed.add", "mixed.sub", "vs.addsub", "vs.a-s", "vs.s-a", "vs.kdiv"]
 
